@@ -14,7 +14,7 @@ from decimal import Decimal
 from lib import heap
 
 ID = 'C13'
-TECHNIQUE = 'runtime monitor: deep fingerprints of every argument at entry/exit of every non-mutator + end-to-end fingerprints of host objects'
+TECHNIQUE = "runtime monitor: deep fingerprints of every argument at entry/exit of every non-mutator + end-to-end fingerprints of host objects; coverage-guided programs (atheris), the repository's tests"
 RULE = ('every non-mutator in the function table x typed argument templates (lists, string lists, nested lists, lists of dicts, dicts, nested dicts, tuples from items/enumerate, '
         'strings, empty containers, aliased containers, a host defaultdict, a 10050-element host list reachable through a dict) with 1- and 2-argument key functions, builtins as key '
         'functions, reverse flags, separators; called through eval in call/method/pipe spelling, directly as FUNCTIONS[name](*args), and in pipelines of 2-4 stages; plus '
@@ -22,6 +22,7 @@ RULE = ('every non-mutator in the function table x typed argument templates (lis
         'fingerprints were compared; distinct = distinct (source | direct call description).')
 RULE += ' Host containers include proper subclasses of list and dict and a defaultdict (whose own index read inserts: not judged).'
 RULE += " One more workload: the repository's own test-suite, run in a worker process against the sandbox copy with this check's monitors installed (the tests' assertions are not the oracle, the monitors are)."
+RULE += " Coverage-guided programs over the host containers: one atheris/libFuzzer process per worker (5 s quick, 100 s thorough) runs this check's own judgement; programs on which a violation was recorded there are judged again by the worker."
 ASSUMPTIONS = ['mutators = push, pop, insert, remove, __setitem__, __setitem_with_op__, __delitem__ (index assignment, compound index assignment, del); everything else in the table is a non-mutator',
                'a window inside which a mutator or a host callback ran is excluded from the judgement (counted); the workload keeps those below 20 % of windows',
                'fingerprint = container identity + ordered element fingerprints (dict: ordered key/value pairs); scalars by type and repr']
@@ -157,6 +158,7 @@ def cases(ctx):
     n = 0
     if ctx.shard == ctx.nshards - 1:
         yield ('repo-tests', 0, 0)
+    yield ('cgf', rnd.getrandbits(30), ctx.scale(5, 100))          # coverage-guided programs, one fuzzing process per worker
     per = ctx.scale(60, 600)
     for name in ctx.nonmut:
         sigs = SIG.get(name)
@@ -205,7 +207,35 @@ STAGES = ['sorted', 'reversed', 'enumerate', 'shuffle', 'keys', 'values', 'items
           'map((k, v) => v)', 'sorted((k, v) => str(v))', 'get("a")', 'get("x", [])', 'split(" ")', 'upper', 'match_all("l")', 'rand']
 
 
+def case_deadline(case):
+    return case[2] + 400 if case[0] == 'cgf' else CASE_DEADLINE
+
+
+def run_cgf(case, ctx):
+    """coverage-guided programs over the host containers: an atheris/libFuzzer process runs THIS check's run_case (every non-mutator window judged, the host objects
+    fingerprinted around evaluations that call no mutator) over the instrumented sandbox copy; programs on which a violation was recorded are judged again here"""
+    from lib import cgdriver
+    _, seed, seconds = case
+    r = random.Random(seed)
+    seeds = ['sorted(ll)', 'reversed(l) | sum', 'keys(dn) | sorted', 'map(ll, v => sorted(v))', 'get(dd, "zz", 1)', 'sum(ll2)', 'shuffle(hl)', 'items(d2) | sorted((k, v) => v)', 'join(ls, sep)', 'index_of(l, 1)',
+             'max(ll[0], ll2[0])', 'pretty(dn)', 'enumerate(al)', 'filter(mixed, v => v)', 'reduce(ll, (a, b) => a)', 'str(dbig["n"])', 'split(s, " ") | reversed', 'min(l)', 'values(dn2)', 'list(hl, hd)']
+    for name in r.sample(ctx.nonmut, 10):
+        seeds.append(call_source(ctx, name, r, 'typed'))
+    out = cgdriver.run(ctx, 'check:C13:callx', seed, seconds, seeds)
+    if out is None:
+        return
+    st, fired, _slow = out
+    for text in fired:
+        ctx.count('programs_on_which_the_oracle_fired_in_the_fuzzing_process')
+        before = len(ctx.violations)
+        run_case(('callx', text, 0, 'fuzz'), ctx)
+        if len(ctx.violations) == before:
+            ctx.violation('coverage-guided fuzzing: a violation was recorded in the fuzzing process but not when the program was judged again here', ('callx', text, 0, 'fuzz'), detail={'src': text[:300]})
+
+
 def run_case(case, ctx):
+    if case[0] == 'cgf':
+        return run_cgf(case, ctx)
     if case[0] == 'repo-tests':
         # the repository's own tests as a workload: every non-mutator window they open is judged by the wrappers in the function table
         from lib import repotests
